@@ -49,7 +49,7 @@ class Plan:
         self._scope = ()
         self._scope_lock = RLock()
 
-    def _call(self, stack_frame, fn: Callable, *args, **kwargs) -> Call:
+    def _call(self, stack_frame, fn: Callable, /, *args, **kwargs) -> Call:
         call = Call(fn, scope=self._scope, stack_frame=stack_frame)
         self.graph.add_node(call)
         for index, arg in enumerate(args):
